@@ -109,7 +109,7 @@ pub fn zst_catalogue() -> Vec<Entry> {
 use crate::gen::Gen;
 use crate::obs::Sink;
 use crate::ops::Budget;
-use crate::schema_ops::{schema_ty, with_schema_pair};
+use crate::schema_ops::{schema_ty, with_schema_pair, with_schema_perturbed};
 
 pub type SRun = fn(&mut Gen, &Budget, &mut Sink);
 
@@ -159,6 +159,17 @@ pub type PRun = fn(&mut Gen, &mut Sink);
 macro_rules! pairs {
     ($v:ident; [$($t:ty),*] ; $us:tt) => { $( pairs!(@row $v; $t; $us); )* };
     (@row $v:ident; $t:ty; [$($u:ty),*]) => { $( $v.push(with_schema_pair::<$t, $u> as PRun); )* };
+}
+
+macro_rules! pert {
+    ($v:ident; $($t:ty),* $(,)?) => { $( $v.push(with_schema_perturbed::<$t> as PRun); )* };
+}
+
+pub fn schema_perturbed() -> Vec<PRun> {
+    let mut v: Vec<PRun> = Vec::new();
+    pert!(v; u8, String, Vec<u8>, Vec<(u8, String)>, Option<u16>, Result<u8, String>, BTreeMap<u8, Vec<String>>,
+          [u16; 3], (u8, (u16, bool)), Vec<Option<Vec<u8>>>, HashMap<String, u32>, core::ops::Range<u8>, Box<[u64]>);
+    v
 }
 
 pub fn schema_pairs() -> Vec<PRun> {
